@@ -8,6 +8,7 @@ package main
 // irrelevant to the property), and nothing here executes code of /repo.
 
 import (
+	"encoding/json"
 	"fmt"
 	"go/ast"
 	"go/token"
@@ -214,9 +215,64 @@ func genMutants(prog *load.Program, funcs map[*ast.FuncDecl]string) []mutant {
 
 var maxSurvivors = 60
 
+// propertyAnchorFiles reads the anchor files of a property from <verif>/properties.jsonl (Go files only; glob patterns allowed).
+func propertyAnchorFiles(verifDir, propID string) []string {
+	b, err := os.ReadFile(filepath.Join(verifDir, "properties.jsonl"))
+	if err != nil {
+		return nil
+	}
+	for _, line := range strings.Split(string(b), "\n") {
+		var rec struct {
+			ID      string `json:"id"`
+			Anchors struct {
+				Files []string `json:"files"`
+			} `json:"anchors"`
+		}
+		if json.Unmarshal([]byte(line), &rec) != nil || rec.ID != propID {
+			continue
+		}
+		var out []string
+		for _, f := range rec.Anchors.Files {
+			if strings.HasSuffix(f, ".go") {
+				out = append(out, f)
+			}
+		}
+		return out
+	}
+	return nil
+}
+
+var sweepVerifDir = "/verif"
+
 func runSweep(prog *load.Program, propID string, selected []*core.Rule, base []core.Obligation, findings []core.Finding, limit, offset int, funcs map[*ast.FuncDecl]string) *sweepResult {
 	if funcs == nil {
 		funcs = anchoredFuncs(prog, base)
+		// a function counts for this property only if it also lies in one of the property's own anchor files: rules shared
+		// between properties put obligations into functions that have nothing to do with this one
+		if pats := propertyAnchorFiles(sweepVerifDir, propID); len(pats) > 0 {
+			kept := 0
+			for _, rel := range funcs {
+				for _, pat := range pats {
+					if ok, _ := filepath.Match(pat, rel); ok || pat == rel {
+						kept++
+						break
+					}
+				}
+			}
+			if kept > 0 {
+				for fd, rel := range funcs {
+					keep := false
+					for _, pat := range pats {
+						if ok, _ := filepath.Match(pat, rel); ok || pat == rel {
+							keep = true
+						}
+					}
+					if !keep {
+						delete(funcs, fd)
+					}
+				}
+			}
+		}
 	}
 	all := genMutants(prog, funcs)
 	res := &sweepResult{AnchoredFunctions: len(funcs), Candidates: len(all), ByOperator: map[string]any{}, KilledByRule: map[string]int{},
